@@ -1,4 +1,7 @@
+#[cfg(not(feature = "verif"))]
 use std::net;
+#[cfg(feature = "verif")]
+use crate::verif::net;
 
 use crate::half_connection::HalfConnection;
 use crate::SendMode;
